@@ -462,4 +462,68 @@ def stepShape : Step → String
   | .write n _ => "write:" ++ (if n = FAVFILE then "fav" else "tmp")
   | .rename a b => "rename:" ++ (if a = FAVFILE then "fav" else "tmp") ++ ">" ++ (if b = FAVFILE then "fav" else "tmp")
 
+/-! ### concurrent savers: names, inodes and descriptors
+
+The sequential model above writes "to a name". Overlapping saves need the real thing: `open` resolves the
+name to an inode once, `write` goes to that inode at the descriptor's offset whatever the inode is called by
+then, `rename` moves the inode to the new name. Any number of savers (indexed by `Nat`) run
+`open(tmp i, O_CREAT|O_TRUNC); write chunk…; rename(tmp i, ".fav")`; a schedule is the list of saver indices
+in the order their system calls happen. -/
+
+structure World where
+  names : String → Option Nat
+  data : Nat → List Nat
+  /-- the next unused inode number -/
+  next : Nat
+
+def World.read (w : World) (n : String) : Option (List Nat) := (w.names n).map w.data
+
+def setName (f : String → Option Nat) (n : String) (v : Option Nat) : String → Option Nat :=
+  fun m => if m = n then v else f m
+def setData (f : Nat → List Nat) (i : Nat) (v : List Nat) : Nat → List Nat :=
+  fun j => if j = i then v else f j
+
+/-- `write` of `c` at offset `off` into a file holding `d` (a hole is zero-filled). -/
+def writeAt (d : List Nat) (off : Nat) (c : List Nat) : List Nat :=
+  (d ++ List.replicate (off - d.length) 0).take off ++ c ++ d.drop (off + c.length)
+
+inductive SState where
+  | idle
+  /-- descriptor on inode `ino` at offset `off`; `rest` are the chunks still to write -/
+  | writing (ino off : Nat) (rest : List (List Nat))
+  | done
+  deriving Repr, DecidableEq
+
+structure Conc where
+  w : World
+  st : Nat → SState
+
+def setSt (f : Nat → SState) (i : Nat) (v : SState) : Nat → SState := fun j => if j = i then v else f j
+
+/-- the next system call of saver `i` (temporary name `tmp i`, content `chunks i`). -/
+def concStep (tmp : Nat → String) (chunks : Nat → List (List Nat)) (c : Conc) (i : Nat) : Conc :=
+  match c.st i with
+  | .idle =>
+      -- open(tmp i, O_CREAT|O_TRUNC)
+      match c.w.names (tmp i) with
+      | some ino => ⟨{ c.w with data := setData c.w.data ino [] }, setSt c.st i (.writing ino 0 (chunks i))⟩
+      | none =>
+          ⟨{ names := setName c.w.names (tmp i) (some c.w.next), data := setData c.w.data c.w.next [],
+             next := c.w.next + 1 }, setSt c.st i (.writing c.w.next 0 (chunks i))⟩
+  | .writing ino off (ch :: rest) =>
+      ⟨{ c.w with data := setData c.w.data ino (writeAt (c.w.data ino) off ch) },
+       setSt c.st i (.writing ino (off + ch.length) rest)⟩
+  | .writing _ _ [] =>
+      -- rename(tmp i, ".fav"); ENOENT leaves everything as it is (the caller returns an error)
+      match c.w.names (tmp i) with
+      | some ino => ⟨{ c.w with names := setName (setName c.w.names FAVFILE (some ino)) (tmp i) none },
+                     setSt c.st i .done⟩
+      | none => ⟨c.w, setSt c.st i .done⟩
+  | .done => c
+
+def concRun (tmp : Nat → String) (chunks : Nat → List (List Nat)) (c : Conc) (sched : List Nat) : Conc :=
+  sched.foldl (concStep tmp chunks) c
+
+def concInit (w : World) : Conc := ⟨w, fun _ => .idle⟩
+
 end PttVerif.C19
